@@ -126,6 +126,11 @@ def gen_cases(rng, tier, scale):
             srcs.append((tg + wch + 'b', 'unicode-ws-after-tilde'))
             srcs.append((tg + wch, 'unicode-ws-after-tilde'))
             srcs.append((tg + wch + '\\{{b', 'unicode-ws-after-tilde'))
+    # @-paths in every spelling the grammar admits, in every position a path may take
+    for ap in ('@this', '@../this', '@../../this', '@../[this]', '@./this', '@this.x', '@../this.x', '@../index', '@../../key', '@root', '@root.this', '@../root',
+               '@[this]', '@../..', '@..', '@../', '@', '@this/this', '@../this/../x', 'this', '../this', './this', '../../[this]', 'this.this', 'this/../x'):
+        for tg in ('{{%s}}', '{{foo %s}}', '{{foo k=%s}}', '{{#if %s}}x{{/if}}', '{{> p %s}}', '{{#each a as |v|}}{{%s}}{{/each}}', '{{foo (bar %s)}}', '{{{%s}}}', '{{#with %s as |w|}}{{/with}}'):
+            srcs.append((tg % ap, 'at-paths'))
     for c in COMMENTS:
         for ctx in ('%s', 'a %s b', '{{#if a}}\n  %s\n{{/if}}', '{{x~}} %s {{~y}}'):
             srcs.append((ctx % c, 'comment'))
